@@ -365,7 +365,7 @@ theorem sound_calls_gen {s : Simp} (hs : SimpSound s) (o : Oracle) (cfg : Cfg) (
     (hcb : ∀ a prog, codeOf codes a = some prog → ∀ b ∈ prog, b < 256)
     (hz : ∀ a, S a → ZeroStorage w a)
     (hob : cfg.balances = true → OracleSound o) (hch : CreateHyp cfg p S w)
-    (hoh : cfg.hsto = true → OracleSound o)
+    (hoh : cfg.hsto = true → OracleSound o ∧ cfg.sha3 = true)
     (ce : CEnd) (hce : ce ∈ (runC s o cfg env codes this fuel).ends)
     (htag : ce.e.tag = .normal) (h : Evm.Halt) (hout : ce.e.out = .halt h) (I : Interp) (hI : I.Std)
     (hbal : cfg.balances = true → BalHyp I cfg w) (hsha : cfg.sha3 = true → ShaInterp I p cfg)
@@ -449,19 +449,21 @@ theorem sound_calls_create {s : Simp} (hs : SimpSound s) (o : Oracle) (cfg : Cfg
     I hI hbal hsha (fun _ _ _ => hstoOK_off hnh) f0 hR0 hthis hd0 hsat
   exact ⟨n, w', hn, hW⟩
 
-/-- **C01.sound_calls_hsto_partial.** The same with SLOAD / SSTORE at mapping and dynamic-array locations followed
-    (`cfg.hsto` on; CREATE on or off — `hch`, `S` as in `sound_calls_gen`: use `ModelledC` / `Modelled`). The conclusion
-    gains the storage clause for the hashed cells, `HRel I p S w' ce.hsto`: every slot from 2^64 on of a modelled account
-    holds, in the final world, what the chain of writes of the path says — the value last stored at the location
-    `hLoc` (Keccak-256 of key ‖ base, resp. of base plus index) of a cell, zero elsewhere; `WRelM` now speaks about the
-    plain slots (below 2^64) only. `ho`: the solver's `unsat` answers are right (`Exec.select`).
-    PARTIAL in `hhs` — at every visited state whose path the valuation satisfies, for the location about to be
-    accessed: (1) the decoded key is a well-formed 256-bit term and the chain is well-formed, and (2) the location
-    term denotes `hLoc` of the decoded cell — two facts about the model (the tie between `decodeSlot` and `f_sha3_*`
-    under `ShaInterp`: `Lemmas.sha512_eval` is the hash part) that are assumed here, not proved —; (3) the location is
-    not a plain slot (≥ 2^64) and (4) no other cell written on the path lies there (`HNoColl`) — the assumptions on
-    Keccak-256, in the style of `ShaOK`. Completeness (`C02`, `C10`) still assumes `cfg.hsto = false`. -/
-theorem sound_calls_hsto_partial {s : Simp} (hs : SimpSound s) (o : Oracle) (ho : OracleSound o) (cfg : Cfg)
+/-- **C01.sound_calls_hsto.** The same with SLOAD / SSTORE at mapping and dynamic-array locations followed
+    (`cfg.hsto` on, which needs the SHA3 layer, `hs3`; CREATE on or off — `hch`, `S` as in `sound_calls_gen`: use
+    `ModelledC` / `Modelled`). The conclusion gains the storage clause for the hashed cells, `HRel I p S w' ce.hsto`: the
+    cells of the chain are well-formed, and every slot from 2^64 on of a modelled account holds, in the final world,
+    what the chain of writes of the path says — the value last stored at the location `hLoc` (Keccak-256 of
+    key ‖ base, resp. of base plus index) of a cell, zero elsewhere; `WRelM` now speaks about the plain slots (below
+    2^64) only. `ho`: the solver's `unsat` answers are right (`Exec.select`).
+    That the location word the model decodes as the cell `(kind, base, key)` denotes `hLoc` of that cell is proved
+    (`Lemmas.decodeSlot_ok`, from `ShaInterp` and the path conditions). What `hhs` assumes — visibly, in the style
+    of `ShaOK`, at every visited state whose path the valuation satisfies, for the location about to be accessed — are
+    the two facts about Keccak-256 that halmos assumes too: the location is not a plain slot (≥ 2^64), and no other
+    cell written on the path lies there (`HNoColl`: no collision between the hashed cells met).
+    Completeness (`C02`, `C10`) still assumes `cfg.hsto = false`. -/
+theorem sound_calls_hsto {s : Simp} (hs : SimpSound s) (o : Oracle) (ho : OracleSound o) (cfg : Cfg)
+    (hs3 : cfg.sha3 = true)
     (env : Env) (codes : List (Nat × List Nat)) (this : Nat) (fuel : Nat) (p : Evm.Params) (w : Evm.World)
     (S : Nat → Prop) (hS0 : S this) (hSc : ∀ a prog, codeOf codes a = some prog → S a)
     (hmem : cfg.maxMem + 32 ≤ p.memLimit) (hdep : 1024 ≤ p.maxDepth)
@@ -470,15 +472,15 @@ theorem sound_calls_hsto_partial {s : Simp} (hs : SimpSound s) (o : Oracle) (ho 
     (hz : ∀ a, S a → ZeroStorage w a) (hch : CreateHyp cfg p S w)
     (ce : CEnd) (hce : ce ∈ (runC s o cfg env codes this fuel).ends)
     (htag : ce.e.tag = .normal) (h : Evm.Halt) (hout : ce.e.out = .halt h) (I : Interp) (hI : I.Std)
-    (hbal : cfg.balances = true → BalHyp I cfg w) (hsha : cfg.sha3 = true → ShaInterp I p cfg)
+    (hbal : cfg.balances = true → BalHyp I cfg w) (hsha : ShaInterp I p cfg)
     (hhs : ∀ cs, VisitedC s o cfg codes (initC env codes this) cs → Sat I cs.st.path → HstoOK I p s cfg cs)
     (f0 : Evm.Frame) (hR0 : R I env ((codeOf codes this).getD []) p initState f0) (hthis : f0.this = this)
     (hd0 : f0.depth = 0) (hsat : Sat I ce.e.st.path) :
     ∃ n w', Evm.exec p n w f0 = some (w', haltWith h (ce.e.data.map (·.eval I))) ∧
         WRelM I S (wd w ce.created ce.nonce) w' (stoOf ce.stores) (evalLogs I ce.logs) (balSem I w ce.bal) ∧
         HRel I p S w' ce.hsto :=
-  sound_calls_gen hs o cfg env codes this fuel p w S hS0 hSc hmem hdep hcodes hcb hz (fun _ => ho) hch (fun _ => ho)
-    ce hce htag h hout I hI hbal hsha hhs f0 hR0 hthis hd0 hsat
+  sound_calls_gen hs o cfg env codes this fuel p w S hS0 hSc hmem hdep hcodes hcb hz (fun _ => ho) hch
+    (fun _ => ⟨ho, hs3⟩) ce hce htag h hout I hI hbal (fun _ => hsha) hhs f0 hR0 hthis hd0 hsat
 
 /-! non-vacuity: a caller and a callee -/
 
@@ -780,9 +782,10 @@ example :
     emptiness condition `load` appends) — denotes the value the flat storage described by the chain holds at the
     location `hLoc` of the cell (`keccak(key ‖ base)`, resp. `keccak(base) + index`), under every valuation satisfying the path for which no other cell
     written on the path lies at that location (`HNoColl`: an assumption on the hash, like `ShaOK`). PARTIAL: this is the
-    storage-level core only; the simulation theorems (`sound_calls` …) assume `cfg.hsto = false` (`hnh`), i.e. they do
-    not yet relate these cells to the reference's storage along a run — the model with `cfg.hsto` on is checked
-    against the real SEVM by the differential harness, and `mapCode` below is an instance against the reference. -/
+    storage-level core only (one load against the flat storage the chain describes); the statement along a run of
+    the frame-stack machine, against the reference's storage, is `sound_calls_hsto` above (soundness; the
+    completeness theorems `C02.complete_calls`, `C10.flagged_calls` still assume `cfg.hsto = false`). `mapCode` and
+    `arrCode` below are instances against the reference with the real Keccak-256. -/
 theorem mapping_load_partial {I : Interp} {p : Evm.Params} {s : Simp} {o : Oracle} (hs : SimpSound s)
     (ho : OracleSound o) {path : List B} (hsat : Sat I path) {chain : List HCell} {acct kind base : Nat} {k : T}
     (hc : HChainWF chain) (hk : k.WF) (hkw : k.width = 256) (hn : HNoColl I p chain acct kind base k)
